@@ -125,6 +125,18 @@ fn main() {
             println!("{} scenarios, {} executions, {:?} total, {:?}/scenario, {:?}/execution", n, execs, el, el / n as u32, el / execs.max(1) as u32);
             0
         }
+        "hash-order" => {
+            // probe for the randomness seam: iteration order of a HashMap on fresh threads
+            world::random_begin_scenario();
+            for round in 0..3 {
+                let h = std::thread::spawn(|| {
+                    let m: std::collections::HashMap<&str, i32> = [("a", 1), ("b", 2), ("c", 3), ("d", 4), ("e", 5)].into_iter().collect();
+                    m.keys().cloned().collect::<Vec<_>>().join("")
+                });
+                println!("round {}: {}", round, h.join().unwrap());
+            }
+            0
+        }
         "parse-time" => {
             for a in &args[2..] {
                 println!("{:?} -> {:?}", a, a.parse::<chrono::DateTime<chrono::Local>>().map(|d| d.with_timezone(&chrono::Utc).to_rfc3339()));
